@@ -376,11 +376,12 @@ impl Compiled {
         lp
     }
 
-    /// is the point (all declared variables fixed) extendable to a feasible point of the linear model?
-    pub fn extendable(&self, fixed: &Env) -> bool {
-        // declared variables missing from `fixed` stay free within their domain; a fixed value outside
-        // the linear model's own domain (bounds / integrality) is infeasible
+    /// do the fixed values (except `skip`) lie inside the linear model's domains of their variables?
+    pub fn fixed_in_domain(&self, fixed: &Env, skip: Option<&str>) -> bool {
         for (n, i) in &self.declared {
+            if Some(n.as_str()) == skip {
+                continue;
+            }
             if let Some(v) = fixed.get(n) {
                 let d = &self.spec.vars[*i].1;
                 let (lo, hi) = d.bounds();
@@ -388,6 +389,16 @@ impl Compiled {
                     return false;
                 }
             }
+        }
+        true
+    }
+
+    /// is the point (all declared variables fixed) extendable to a feasible point of the linear model?
+    pub fn extendable(&self, fixed: &Env) -> bool {
+        // declared variables missing from `fixed` stay free within their domain; a fixed value outside
+        // the linear model's own domain (bounds / integrality) is infeasible
+        if !self.fixed_in_domain(fixed, None) {
+            return false;
         }
         let mut lp = self.lp_with(fixed);
         lp.obj = vec![Q::zero(); lp.n];
@@ -399,6 +410,10 @@ impl Compiled {
     /// assignment of the integer auxiliaries; None bound = unbounded. Optional extra rows.
     pub fn project_x(&self, x: &str, fixed: &Env, extra_rows: &[(Vec<Q>, Rel, Q)]) -> Vec<(Option<Q>, Option<Q>)> {
         let Some(xi) = self.declared.iter().find(|d| d.0 == x).map(|d| d.1) else { return vec![] };
+        // a fixed value outside the linear model's own domain of that variable admits no point at all
+        if !self.fixed_in_domain(fixed, Some(x)) {
+            return vec![];
+        }
         let mut base = self.lp_with(fixed);
         for r in extra_rows {
             base.rows.push(r.clone());
